@@ -246,6 +246,8 @@ type Job struct {
 	Desc     string
 	NoFast   bool
 	NoNarrow bool
+	// NoNative: the harness environment exists only as an engine-side model (no native replay possible)
+	NoNative bool
 	// ExpectFail: vacuity twin – the harness must end in at least one violation
 	ExpectFail bool
 }
